@@ -2,7 +2,7 @@
    Ws = the id-sorted walk (path, prior identity) of any model; tps = its tuple-prior paths; rows = the samples
    handed to Sample.from_lists; fx / drop0 select the pinned code (false / true) or the proposed fixes. *)
 From Coq Require Import List String Bool Arith.
-From PAFC09 Require Import Model Lib Proofs1 Proofs2 Proofs3 Proofs4 Proofs5 Proofs6 Witness.
+From PAFC09 Require Import Model Lib Proofs1 Proofs2 Proofs3 Proofs4 Proofs5 Proofs6 Proofs7 Witness.
 Import ListNotations.
 
 (* every well-formed model tree (distinct "."-free attribute names per node, any nesting, sharing, tuples,
@@ -127,6 +127,16 @@ Theorem C09_value_per_path_recreated : forall (V : Type) (Ws : list (path * nat)
     lookup_group (combine (map KTup (unique_paths Ws)) vals) (map KTup (group j Ws')) = Ok v.
 Proof. exact @value_per_path_recreated. Qed.
 
+(* named json rows of a database fit (samples_summary, samples_info, ...): for EVERY history of saves the value read
+   back under a name is the value of the LAST save under that name, and exactly one row carries each saved name *)
+Theorem C09_json_latest_wins : forall (A : Type) (h : list (string * A)) (k : string),
+  get_json k (run_json h) = assoc string_dec k (rev h).
+Proof. exact @json_latest_wins. Qed.
+
+Theorem C09_json_one_row : forall (A : Type) (h : list (string * A)) (k : string),
+  json_count k (run_json h) = if in_dec string_dec k (map fst h) then 1 else 0.
+Proof. exact @json_one_row. Qed.
+
 Print Assumptions C09_shapes.
 Print Assumptions C09_roundtrip_db.
 Print Assumptions C09_roundtrip_csv_partial.
@@ -136,3 +146,4 @@ Print Assumptions C09_summary_fixed.
 Print Assumptions C09_tree_csv.
 Print Assumptions C09_tree_db.
 Print Assumptions C09_value_per_path_recreated.
+Print Assumptions C09_json_latest_wins.
